@@ -57,6 +57,58 @@ theorem C18_collector_blocks_only_register :
       ((k = .threadCollectorNew ∨ k = .threadCollectorDel) ∧ b.2.1 = "Thread_Init_Run") := by
   decide +kernel
 
+/-! ### the root flag of a registry entry: from `new_root` to the tests of `GC_Mark` and `GC_Sweep`
+
+  `struct GCEntry { var ptr; uint64_t hash; bool root; bool marked; }` is built in ONE place, `GC_Set_Ptr`, with a positional
+  initialiser `{ ptr, ihash, root, 0 }`: which member an item lands in is decided by the declaration order of the struct, in
+  another part of the file.  translate/g_cfg.py regenerates the members in order, every brace initialiser of such an object (and
+  every member-wise assignment), the members the two tests of the collector read, the parameters and every call of `GC_Set_Ptr`,
+  and the flag each allocation route registers with; `Keep.entryInitExpr` (Cello/Config.lean) resolves "which item feeds which
+  member" the way C does (designator, else position), and `Keep.storedRoot` — what the collector's tests find in an entry made
+  with root argument `r` — is what the keep model's registry (`Keep.toHeap`) gives the entry of a `new_root` container. -/
+
+/-- **The root argument of `GC_Set_Ptr` is stored in the member the collector tests** (source as it is now).
+    (1) an entry registered with root argument `r` carries `r` in the member that `GC_Sweep` tests before freeing an unmarked
+    entry, and starts unmarked whatever `r` is; the pointer and the stored hash arrive in `ptr` / `hash`;
+    (2) the root loop of `GC_Mark` tests the same member as `GC_Sweep`, both use the same mark bit, and the two are different
+    members of the struct;
+    (3) `GC_Set_Ptr` holds the only brace initialiser of a `struct GCEntry`, with one item per member, and the only member
+    ever assigned on its own is the mark bit — the root flag is written at creation and nowhere else;
+    (4) the callers: `GC_Set` passes `(bool)c_int(val)`, `GC_Rehash` re-inserts with the root member of the old entry;
+    `alloc_by` registers ALLOC_ROOT blocks with `$I(1)`, ALLOC_STANDARD blocks with `$I(0)`, ALLOC_RAW blocks not at all, and
+    `alloc` / `alloc_raw` / `alloc_root` select these.
+    Swapping the two flag members of the struct while the initialiser stays positional (the root argument then lands in the
+    mark bit, which `GC_Unmark` wipes, and the root member is always 0), an initialiser `{ ptr, ihash, 0, root }`, a rehash
+    that re-inserts with `marked`, or `alloc_root` registering with `$I(0)` all make this `decide` fail — and
+    `C18_root_flag_needed` shows what the program then loses. -/
+theorem C18_root_flag_reaches_collector_tests :
+    (Keep.storedRoot true = true ∧ Keep.storedRoot false = false ∧ Keep.storedMarked true = false ∧ Keep.storedMarked false = false ∧
+      Keep.entryInitExpr "ptr" = some "ptr" ∧ Keep.entryInitExpr "hash" = some "ihash") ∧
+    (gcMarkRootTest = gcSweepSpares ∧ gcMarkRootSets = gcSweepMarkBit ∧ gcSweepSpares ≠ gcSweepMarkBit ∧
+      gcSweepSpares ∈ gcEntryMembers.map (·.1) ∧ gcSweepMarkBit ∈ gcEntryMembers.map (·.1)) ∧
+    (gcEntryInits.map (·.1) = ["GC_Set_Ptr"] ∧ Keep.setPtrInit.length = gcEntryMembers.length ∧
+      (gcEntryMembers.map (·.1)).Nodup ∧ ∀ w ∈ gcEntryWrites, w.2.1 = gcSweepMarkBit) ∧
+    (gcSetPtrParams = ["gc", "ptr", "root"] ∧
+      gcSetPtrCalls = [("GC_Rehash", ["gc", "old_entries[i].ptr", "old_entries[i]." ++ gcSweepSpares]), ("GC_Set", ["gc", "key", "(bool)c_int(val)"])] ∧
+      allocRegisters = [("ALLOC_STANDARD", some "0"), ("ALLOC_RAW", none), ("ALLOC_ROOT", some "1")] ∧
+      allocRoutes = [("alloc", "ALLOC_STANDARD"), ("alloc_raw", "ALLOC_RAW"), ("alloc_root", "ALLOC_ROOT")]) := by
+  decide +kernel
+
+/-- the hypothesis the keep lemmas (CelloProofs/Lemmas/CfgKeep.lean) are stated under -/
+theorem C18_root_wired : Keep.RootWired := C18_root_flag_reaches_collector_tests.1.1
+
+/-- **… and it has to be** (the seeded shape): in the smallest program with a root — `static var reg; reg = new_root(Array, Ref);`,
+    the variable outside the collector's view — an entry that does not carry the flag in the member the collector tests is freed
+    by the first collection, while with the wiring of the source the block is still there. -/
+theorem C18_root_flag_needed :
+    (Keep.kcollectW (fun _ => false) Keep.rootOnly).heap.lookup 0 = none ∧
+    (Keep.kcollect Keep.rootOnly).heap.lookup 0 = some (.array []) ∧
+    Keep.KReach Keep.rootOnly.heap Keep.rootOnly.roots 0 := by
+  have hr : Keep.KReach Keep.rootOnly.heap Keep.rootOnly.roots 0 := .root (by decide) (by decide)
+  refine ⟨Keep.kcollectW_unwired_loses_root, ?_, hr⟩
+  rw [Keep.kcollect_keeps C18_root_wired Keep.fresh_rootOnly hr]
+  rfl
+
 /-- the memo of `Type_Instance` is the macro the model was written against, its slot indices are pairwise distinct,
     below `CELLO_CACHE_NUM`, and no class has two slots -/
 theorem C18_cache_table_sound :
@@ -271,7 +323,7 @@ theorem C18_collect_preserves_reachable (s : St) (k : Keep.KSt) (hk : Keep.Fresh
     ((Keep.kcollect k).slots = k.slots ∧ (Keep.kcollect k).tls = k.tls ∧
       (∀ i, Keep.KReach k.heap k.roots i → (Keep.kcollect k).heap.lookup i = k.heap.lookup i) ∧
       (∀ i c, (Keep.kcollect k).heap.lookup i = some c → k.heap.lookup i = some c)) :=
-  ⟨⟨rfl, collect_find s⟩, rfl, rfl, fun _ hr => Keep.kcollect_keeps hk hr, fun _ _ h => Keep.kcollect_sub k h⟩
+  ⟨⟨rfl, collect_find s⟩, rfl, rfl, fun _ hr => Keep.kcollect_keeps C18_root_wired hk hr, fun _ _ h => Keep.kcollect_sub k h⟩
 
 /-- **Every Mark instance covers everything its container holds** (for the source as it is now): whatever a block refers
     to — every item of an Array or List of Refs, the key and the value of EVERY entry of a Table's slot array and of every
@@ -331,7 +383,7 @@ theorem C18_keep_step_config_independent (c₁ c₂ : Cfg) (op : Keep.KOp) (s t 
     (h : Keep.Sim s t) (hs : Keep.Fresh s) (ht : Keep.Fresh t) :
     (Keep.kstep c₁ op s).2 = (Keep.kstep c₂ op t).2 ∧ Keep.Sim (Keep.kstep c₁ op s).1 (Keep.kstep c₂ op t).1 ∧
       Keep.Fresh (Keep.kstep c₁ op s).1 ∧ Keep.Fresh (Keep.kstep c₂ op t).1 :=
-  Keep.kstep_sim c₁ c₂ op h hs ht
+  Keep.kstep_sim C18_root_wired c₁ c₂ op h hs ht
 
 /-- **C18 for keep programs.** Every program over holders — containers of every kind that declares Mark, Ref/Box chains,
     thread-local storage, the table of a Thread object held in a variable (not started, or started and joined later: the
@@ -342,7 +394,7 @@ theorem C18_keep_step_config_independent (c₁ c₂ : Cfg) (op : Keep.KOp) (s t 
 theorem C18_keep_config_independent (c₁ c₂ : Cfg) (prog : List Keep.KOp) :
     (Keep.krun c₁ prog Keep.KSt.init).2 = (Keep.krun c₂ prog Keep.KSt.init).2 ∧
       Keep.Sim (Keep.krun c₁ prog Keep.KSt.init).1 (Keep.krun c₂ prog Keep.KSt.init).1 :=
-  Keep.krun_sim c₁ c₂ prog (Keep.Sim.refl _) Keep.fresh_init Keep.fresh_init
+  Keep.krun_sim C18_root_wired c₁ c₂ prog (Keep.Sim.refl _) Keep.fresh_init Keep.fresh_init
 
 /-- what `Sim` means for the program: whatever operation comes next sees exactly the same -/
 theorem C18_keep_sim_observe (s t : Keep.KSt) (h : Keep.Sim s t) (op : Keep.KOp) : Keep.view op s = Keep.view op t :=
@@ -354,7 +406,7 @@ theorem C18_keep_sim_observe (s t : Keep.KSt) (h : Keep.Sim s t) (op : Keep.KOp)
 theorem C18_keep_collection_schedule_irrelevant (c : Cfg) (op : Keep.KOp) (s : Keep.KSt) (hs : Keep.Fresh s) :
     (Keep.kstep c op (Keep.kcollect s)).2 = (Keep.kstep c op s).2 ∧
       Keep.Sim (Keep.kstep c op (Keep.kcollect s)).1 (Keep.kstep c op s).1 := by
-  obtain ⟨h1, h2, _⟩ := Keep.kstep_sim c c op (Keep.kcollect_sim_left (Keep.Sim.refl s) hs) (Keep.kcollect_fresh hs) hs
+  obtain ⟨h1, h2, _⟩ := Keep.kstep_sim C18_root_wired c c op (Keep.kcollect_sim_left C18_root_wired (Keep.Sim.refl s) hs) (Keep.kcollect_fresh hs) hs
   exact ⟨h1, h2⟩
 
 /-- **Complete characterisation, no in-contract hypothesis.** For every program and every configuration, the outcome lists
@@ -411,7 +463,7 @@ theorem C18_process_end_refuted :
     Keep.endLedger Cfg.default exitWitness = [1, 0] ∧ Keep.endLedger Keep.ngcCfg exitWitness = [0] ∧
     ¬ C18_process_end_statement := by
   have h1 : Keep.endLedger Cfg.default exitWitness = [1, 0] := by
-    rw [Keep.endLedger_gc (c := Cfg.default) rfl, Keep.used_config_independent Cfg.default Keep.ngcCfg]
+    rw [Keep.endLedger_gc (c := Cfg.default) rfl, Keep.used_config_independent C18_root_wired Cfg.default Keep.ngcCfg]
     decide +kernel
   have h2 : Keep.endLedger Keep.ngcCfg exitWitness = [0] := by decide +kernel
   refine ⟨?_, h1, h2, ?_⟩
@@ -432,8 +484,8 @@ theorem C18_process_end_refuted :
 theorem C18_process_end_partial (c₁ c₂ : Cfg) (prog : List Keep.KOp) (h : Keep.ReleasesAll prog) :
     Keep.endLedger c₁ prog = Keep.endLedger c₂ prog ∧
     Keep.endLedger c₁ prog = (Keep.krun c₁ prog Keep.KSt.init).1.used := by
-  rw [Keep.endLedger_of_releasesAll c₁ prog h, Keep.endLedger_of_releasesAll c₂ prog h,
-      Keep.used_config_independent c₁ Keep.ngcCfg]
+  rw [Keep.endLedger_of_releasesAll C18_root_wired c₁ prog h, Keep.endLedger_of_releasesAll C18_root_wired c₂ prog h,
+      Keep.used_config_independent C18_root_wired c₁ Keep.ngcCfg]
   exact ⟨rfl, rfl⟩
 
 /-- the hypothesis is met by a program that fills a Table and a chain, lets the collector run, removes with `del` and deletes
@@ -516,7 +568,7 @@ example :
 theorem C18_workload_config_independent (cfg : Cfg) (prog : List WOp)
     (hok : WInContract (wrun Cfg.default prog (St.init, Keep.KSt.init)).2) :
     (wrun cfg prog (St.init, Keep.KSt.init)).2 = (wrun Cfg.default prog (St.init, Keep.KSt.init)).2 :=
-  wrun_sim cfg prog _ _ _ _ (Equiv.refl _) (WF_init _) (WF_init _) (Keep.Sim.refl _) Keep.fresh_init Keep.fresh_init hok
+  wrun_sim C18_root_wired cfg prog _ _ _ _ (Equiv.refl _) (WF_init _) (WF_init _) (Keep.Sim.refl _) Keep.fresh_init Keep.fresh_init hok
 
 /-- a keep workload: a Table (Int ↦ Ref) and a Table whose KEYS hold the pointers, filled with keys whose home slots lie
     beyond the item count; a Ref/Box chain; thread-local storage; a Thread object used as a table (and then run);
@@ -539,6 +591,24 @@ example :
     ((Keep.krun Cfg.default sampleKeep Keep.KSt.init).2.drop 38).take 2 = [.ok (.ran 1 90), .ok (.read [(2, 9, 90)] none)] ∧
     (Keep.krun Cfg.default sampleKeep Keep.KSt.init).2.all (fun r => match r with | .ok _ => true | _ => false) = true := by
   rw [(C18_keep_config_independent Cfg.default ⟨true, true, false⟩ sampleKeep).1]
+  decide +kernel
+
+/-- a keep workload over ROOTS kept outside the collector's view (`static var slot; slot = new_root(<container>);`): a Table, a
+    Ref/Box chain and an Array, filled, put under allocation pressure and forced collections (nothing but the root flag of their
+    registry entries keeps them and what they hold), read back, changed, released with `del_root` -/
+def sampleRootKeep : List Keep.KOp :=
+  [.hnewRoot 0 .tableV, .hput 0 3 0 50, .hput 0 8 1 70, .hnewRoot 1 .chain, .hput 1 0 2 30, .hput 1 1 3 40, .hnewRoot 2 .array, .hput 2 0 4 11,
+   .hchurn 200, .gc, .hread 0, .hread 1, .hread 2, .hrel 0 3, .hput 2 1 5 12, .hchurn 300, .gc, .hget 0 8, .hread 2, .hdrop 1, .hdel 1, .hdel 0, .gc, .hread 2,
+   .hnewRoot 3 .tls, .hnewRoot 0 .thread]
+
+/-- … in the default build (collector at work) it reads back what it stored; forgetting a root (`hdrop`) and roots of thread
+    storage are refused; computed through the build without a collector, to which `C18_keep_config_independent` equates it -/
+example :
+    ((Keep.krun Cfg.default sampleRootKeep Keep.KSt.init).2.drop 10).take 3 =
+      [.ok (.read [(3, 0, 50), (8, 1, 70)] (some (5, 2))), .ok (.read [(0, 2, 30), (1, 3, 40)] none), .ok (.read [(0, 4, 11)] none)] ∧
+    ((Keep.krun Cfg.default sampleRootKeep Keep.KSt.init).2.drop 17).take 3 = [.ok (.got 1 70), .ok (.read [(0, 4, 11), (1, 5, 12)] none), .ub] ∧
+    ((Keep.krun Cfg.default sampleRootKeep Keep.KSt.init).2.drop 20) = [.ok .unit, .ok .unit, .ok .unit, .ok (.read [(0, 4, 11), (1, 5, 12)] none), .ub, .ub] := by
+  rw [(C18_keep_config_independent Cfg.default ⟨true, true, false⟩ sampleRootKeep).1]
   decide +kernel
 
 end Cello.Config
